@@ -149,7 +149,7 @@ func init() {
 	fw.Register(&fw.Prop{
 		ID:       "C06",
 		Rule:     "values of every encodable kind are built through the API from generated recipes: controller messages (all kinds and nestings), switch-originated messages and stats records, packets (Ethernet/VLAN/ARP/IPv4/IPv6 + extension headers/ICMP/UDP/TCP/IGMPv1-3), DHCP and LLDP (encoded through Read). For each value and, recursively, each nested child: len(encoding) == Len(), and the parent's bytes are its header followed by the children's own standalone encodings in order plus zero padding. distinct = hash(mode, recipe without xid); non-trivial = the value has at least one child",
-		NumCases: func(tier string, seed uint64) int { return nCases(tier, 60000, 16000000) },
+		NumCases: func(tier string, seed uint64) int { return nCases(tier, 300000, 16000000) },
 		Gen:      func(tier string, seed uint64, i int) any { return mixedCase(6, tier, seed, i) },
 		NewCase:  func() any { return new(c06Case) },
 		Eval:     c06Eval,
